@@ -50,6 +50,81 @@ pub struct Case {
     /// the record than the candidates' ports): the voted address does not fit into the record
     #[serde(default)]
     pub tight_record: bool,
+    /// companion: the vote table on its own (hook VIpVote) with hundreds of voters; the service is not run
+    #[serde(default)]
+    pub table: Option<VoteTable>,
+}
+
+/// Vote history for the vote table alone: blocks of voters naming a candidate, the majority is queried
+/// after every block.
+#[derive(Clone, Debug, PartialEq, Eq, Hash, Serialize, Deserialize)]
+pub struct VoteTable {
+    pub min: u8,
+    /// (first voter, number of voters, candidate): voters first..first+n each vote for the candidate
+    /// (odd candidates are IPv6 addresses)
+    pub blocks: Vec<(u16, u16, u8)>,
+}
+
+fn run_vote_table(c: &VoteTable, rep: &mut CaseReport) {
+    let m = c.min.clamp(2, 12) as usize;
+    let mut t = discv5::verif::VIpVote::new(m, Duration::from_secs(3600));
+    // ledger: latest vote per (voter, family)
+    let mut votes: HashMap<(u16, bool), SocketAddr> = HashMap::new();
+    let voter_id = |v: u16| {
+        let mut raw = [0x5au8; 32];
+        raw[0] = (v >> 8) as u8;
+        raw[1] = v as u8;
+        raw[31] = (v as u8).wrapping_mul(31);
+        ids::node_id(&raw)
+    };
+    rep.class("vote-table-companion");
+    let mut results = 0u64;
+    let mut most = 0usize;
+    for (first, n, cand) in c.blocks.iter().take(12) {
+        let a = cand_addr(cand % 6, true);
+        for v in *first..first.saturating_add(*n) {
+            t.insert(voter_id(v), a);
+            votes.insert((v, a.is_ipv6()), a);
+        }
+        let (m4, m6) = t.majority();
+        for (fam6, got) in [(false, m4.map(SocketAddr::V4)), (true, m6.map(SocketAddr::V6))] {
+            let mut per: HashMap<SocketAddr, usize> = HashMap::new();
+            for ((_, f), a) in &votes {
+                if *f == fam6 {
+                    *per.entry(*a).or_insert(0) += 1;
+                }
+            }
+            most = most.max(per.values().sum::<usize>());
+            let Some(x) = got else { continue };
+            results += 1;
+            let cx = per.get(&x).copied().unwrap_or(0);
+            if cx < m {
+                rep.fail("address/majority-below-minimum", format!("the vote table names {x} as majority with {cx} current vote(s) from distinct peers, minimum {m} ({} voters in all, tallies {per:?})", per.values().sum::<usize>()));
+                return;
+            }
+            for (y, cy) in &per {
+                if *y == x {
+                    continue;
+                }
+                if *cy >= cx {
+                    rep.fail("address/majority-without-unique-maximum", format!("the vote table names {x} as majority with {cx} votes while rival {y} has {cy} unexpired votes (tallies {per:?})"));
+                    return;
+                }
+                if 10 * cy >= 7 * cx {
+                    rep.fail("address/majority-without-clear-margin", format!("the vote table names {x} as majority with {cx} votes while rival {y} has {cy} (within the 30% margin)"));
+                    return;
+                }
+            }
+        }
+    }
+    rep.nontrivial = results > 0 && most >= 30;
+    if most > 256 {
+        rep.class("vote-table-companion/>256-voters-in-one-family");
+    }
+    if most > 64 {
+        rep.class("vote-table-companion/>64-voters-in-one-family");
+    }
+    rep.count("vote_table_majorities", results);
 }
 
 pub const SHORT_VOTE_MS: u64 = 80;
@@ -336,7 +411,7 @@ impl Property for C17 {
             1 => Just(Step::EventBacklog),
         ];
         let free = (any::<bool>(), 2u8..=7, prop_oneof![2 => 3u8..=14, 1 => 12u8..=24], prop_oneof![3 => Just(99u8), 1 => 0u8..14], 2u8..=4, proptest::collection::vec(step, 1..70), prop_oneof![12 => Just(false), 1 => Just(true)])
-            .prop_map(|(dual, min, n_voters, first_incoming, n_cands, steps, tight_record)| Case { dual, min, n_voters, first_incoming, n_cands, steps, expiry: false, tight_record });
+            .prop_map(|(dual, min, n_voters, first_incoming, n_cands, steps, tight_record)| Case { dual, min, n_voters, first_incoming, n_cands, steps, expiry: false, tight_record, table: None });
         // expiry regime: some voters name an address, real time passes until those votes have
         // expired, then further voters name it (and the early ones may vote again in a new ping round)
         let estep = prop_oneof![
@@ -352,7 +427,7 @@ impl Property for C17 {
                 steps.push(Step::Pong { voter: v, cand: 0 });
             }
             steps.extend(tail);
-            Case { dual, min, n_voters: 8, first_incoming: 99, n_cands: 2, steps, expiry: true, tight_record: false }
+            Case { dual, min, n_voters: 8, first_incoming: 99, n_cands: 2, steps, expiry: true, tight_record: false, table: None }
         });
         // dual stack: the peers that named an IPv6 address let that vote expire and vote on the IPv4
         // address in a later round; then one further peer names the IPv6 address
@@ -368,12 +443,28 @@ impl Property for C17 {
             steps.push(Step::Nap);
             steps.push(Step::Pong { voter: min - 1, cand: 1 });
             steps.extend(tail);
-            Case { dual: true, min, n_voters: 8, first_incoming: 99, n_cands: 2, steps, expiry: true, tight_record: false }
+            Case { dual: true, min, n_voters: 8, first_incoming: 99, n_cands: 2, steps, expiry: true, tight_record: false, table: None }
         });
-        prop_oneof![80 => free, 2 => expiry, 1 => expiry_dual].boxed()
+        let block = (prop_oneof![3 => Just(0u16), 2 => 0u16..700], prop_oneof![3 => 1u16..40, 3 => 40u16..300, 2 => 200u16..700], prop_oneof![4 => Just(0u8), 4 => Just(2u8), 1 => 0u8..6]);
+        let table = (2u8..=12, proptest::collection::vec(block, 1..8)).prop_map(|(min, mut blocks)| {
+            // later blocks of voters that did not vote before (the ledger then differs from "the latest N votes")
+            let mut next = 0u16;
+            for (j, b) in blocks.iter_mut().enumerate() {
+                if j % 2 == 0 {
+                    b.0 = next;
+                }
+                next = next.max(b.0.saturating_add(b.1));
+            }
+            Case { dual: true, min, n_voters: 2, first_incoming: 99, n_cands: 2, steps: vec![], expiry: false, tight_record: false, table: Some(VoteTable { min, blocks }) }
+        });
+        prop_oneof![80 => free, 2 => expiry, 1 => expiry_dual, 6 => table].boxed()
     }
     fn run(case: &Case) -> CaseReport {
         let mut rep = CaseReport::default();
+        if let Some(t) = &case.table {
+            run_vote_table(t, &mut rep);
+            return rep;
+        }
         let v = run_blocking(run(case, &mut rep));
         if let Some((s, d)) = v {
             rep.fail(s, d);
@@ -381,7 +472,7 @@ impl Property for C17 {
         rep
     }
     fn rule() -> String {
-        "a real service with a scripted handler (IPv4 or dual stack, enr_peer_update_min 2..6, vote duration 10 min, ping interval 10 s virtual, connectivity timer off); 3..24 voters become table members through Established (outgoing; in a quarter of the cases some are incoming); the service's own PINGs are answered per script with PONGs naming one of 2..4 candidate addresses (IPv6 candidates in dual stack), voters change their vote in later ping rounds, some PINGs fail or stay unanswered. Ledger: latest vote per voter. Whenever the UDP socket of local_enr() changes between two steps: the step's input was a PONG; the new address has >= minimum current votes from distinct voters; (all voters eligible) it is the unique maximum and every rival has fewer than 70% of its votes; seq increased, the signature verifies, and Event::SocketUpdated(address) was emitted in that step; an address named by fewer than the minimum number of peers is never taken. Expiry regime (one case in 41): vote duration 80 ms of real time, some voters name an address, a measured real idle period of more than 1.3 x the vote duration follows, then further voters name it; an update then needs at least the minimum number of peers whose naming is not certainly expired. Non-trivial = two candidates with >= 2 votes each, a voter changing its vote, or an update.".into()
+        "a real service with a scripted handler (IPv4 or dual stack, enr_peer_update_min 2..6, vote duration 10 min, ping interval 10 s virtual, connectivity timer off); 3..24 voters become table members through Established (outgoing; in a quarter of the cases some are incoming); the service's own PINGs are answered per script with PONGs naming one of 2..4 candidate addresses (IPv6 candidates in dual stack), voters change their vote in later ping rounds, some PINGs fail or stay unanswered. Ledger: latest vote per voter. Whenever the UDP socket of local_enr() changes between two steps: the step's input was a PONG; the new address has >= minimum current votes from distinct voters; (all voters eligible) it is the unique maximum and every rival has fewer than 70% of its votes; seq increased, the signature verifies, and Event::SocketUpdated(address) was emitted in that step; an address named by fewer than the minimum number of peers is never taken. Expiry regime (one case in 41): vote duration 80 ms of real time, some voters name an address, a measured real idle period of more than 1.3 x the vote duration follows, then further voters name it; an update then needs at least the minimum number of peers whose naming is not certainly expired. One case in 15 is a companion on the vote table alone (hook VIpVote around service::ip_vote::IpVote, vote duration 1 h): up to 8 blocks of 1..700 voters (voter ids 0..1400, fresh voters and voters changing their vote) name one of 6 addresses of both families, minimum 2..12; after every block the majority of each family is read and, if there is one, must have >= minimum current votes, be the unique maximum and lead every rival by the exact 70% rule - with hundreds of voters, which no routing table holds. Non-trivial = two candidates with >= 2 votes each, a voter changing its vote, or an update; companion: a majority was named among >= 30 voters.".into()
     }
     fn assumptions() -> Vec<String> {
         vec![
